@@ -105,6 +105,25 @@ def generate(seed, tier):
         for i, m in enumerate(members):
             quads.append([cells[i], ["u", writers.RDF + "first"], m, gr])
             quads.append([cells[i], ["u", writers.RDF + "rest"], cells[i + 1] if i + 1 < len(cells) else ["u", writers.RDF + "nil"], gr])
+    if fmt in ("turtle", "trig", "json-ld") and g.chance(0.15):
+        # a list with lists as members: ( 1 ( 2 3 ) ( ) ) in Turtle/TriG, arrays within @list in JSON-LD 1.1
+        gr = g.choice([None] + gnames) if quad else None
+        outer = [["b", "o%d" % (i + 1)] for i in range(g.randint(1, 3))]
+        quads.append([g.pick([x for x in subs if x[0] == "u"]), g.pick([x for x in preds if not x[1].endswith("type")]), outer[0], gr])
+        for i, cell in enumerate(outer):
+            kind = g.choice(["inner", "inner", "empty", "plain"])
+            if kind == "plain":
+                member = ["l", "7", None, XSD + "integer"]
+            elif kind == "empty":
+                member = ["u", writers.RDF + "nil"]
+            else:
+                inner = [["b", "i%d_%d" % (i + 1, j + 1)] for j in range(g.randint(1, 2))]
+                member = inner[0]
+                for j, c2 in enumerate(inner):
+                    quads.append([c2, ["u", writers.RDF + "first"], g.choice([u("C"), ["l", "x", "en", None], ["l", "2", None, XSD + "integer"]]), gr])
+                    quads.append([c2, ["u", writers.RDF + "rest"], inner[j + 1] if j + 1 < len(inner) else ["u", writers.RDF + "nil"], gr])
+            quads.append([cell, ["u", writers.RDF + "first"], member, gr])
+            quads.append([cell, ["u", writers.RDF + "rest"], outer[i + 1] if i + 1 < len(outer) else ["u", writers.RDF + "nil"], gr])
     if g.chance(0.25):
         # blank nodes hanging off one statement, two deep and side by side (the syntaxes can write them in place: [ ... ] in
         # Turtle/TriG, nested node elements / parseType="Resource" in RDF/XML, embedded node objects in JSON-LD)
